@@ -18,7 +18,8 @@ enum Kind {
     K_SETICON = 12,   // blob: new icon bytes (harness-side change of the platform's icon)
     K_SETFRIENDLY = 13,
     K_FAULT = 14,     // a: what, arg   (C18)
-    K_PBURST = 15     // a: first id, count   (generation-time marker, expanded into K_PROBE ops)
+    K_PBURST = 15,    // a: first id, count   (generation-time marker, expanded into K_PROBE ops)
+    K_OTHERIF = 18    // a: what, station, x : a frame for ANOTHER interface of the same host (created on first use); see OtherIf
 };
 
 struct HCfg {
@@ -46,8 +47,30 @@ struct HCfg {
         return h;
     }
     Mac ownmac() const { return mac_from_u64(own); }
-    Mac st_real(int k) const { return mac_from_u64(stbase + ((uint64_t)(k & 0xFFFF) << 8) + 1); }
-    Mac st_bridge(int k) const { return mac_from_u64(stbase + ((uint64_t)(k & 0xFFFF) << 8) + 2); }
+    // bits 48..51 of stbase: 1 + index of one station whose real address is a "special" one; bits 52..55: which
+    // (all-zero, a group address, all-ones-but-one, an address that differs from another station's only in its first octet)
+    Mac st_real(int k) const {
+        uint64_t base = stbase & 0xFFFFFFFFFFFFULL;
+        int sp = (int)(stbase >> 48 & 0xF);
+        if (sp && sp - 1 == k) {
+            switch ((int)(stbase >> 52 & 0xF)) {
+                case 0: return mac_from_u64(0);
+                case 1: return mac_from_u64(0x01005E000001ULL);
+                case 2: return mac_from_u64(0xFFFFFFFFFFFEULL);
+                default: return mac_from_u64((base + ((uint64_t)((k + 1) & 0xFFFF) << 8) + 1) ^ 0x800000000000ULL);
+            }
+        }
+        return mac_from_u64(base + ((uint64_t)(k & 0xFFFF) << 8) + 1);
+    }
+    Mac st_bridge(int k) const { return mac_from_u64((stbase & 0xFFFFFFFFFFFFULL) + ((uint64_t)(k & 0xFFFF) << 8) + 2); }
+    // a second interface of the same host (K_OTHERIF): other address, other MTU, other medium
+    IfCfg other_ifcfg() const {
+        IfCfg i = ifcfg();
+        i.mac = mac_from_u64(own ^ 0x000100000000ULL);
+        i.mtu = mtu > 1000 ? 576 + (mtu % 97) : 1500;
+        i.wifi = !wifi;
+        return i;
+    }
     IfCfg ifcfg() const {
         IfCfg i;
         i.mtu = mtu; i.mac = ownmac(); i.wifi = wifi; i.ssid = ssid; i.ssid_untrunc = untrunc; i.fail = fail & 0xFFFF;
@@ -78,6 +101,34 @@ struct Built {
     bool is_frame = false;
     int station = -1;     // resolved sender station (commands)
     bool bridged = false;
+};
+
+// Another interface of the same host, served by the same core in the same process. It comes into being with the first K_OTHERIF step
+// (cases without such steps are untouched) and receives ordinary traffic of its own; what it transmits is discarded. Nothing that
+// happens there may show on the interface under observation - every oracle keeps judging that one as if it were alone.
+struct OtherIf {
+    int idx = -1;
+    Mac mac;
+    int steps = 0;
+    void step(World &w, const HCfg &h, const Op &op) {
+        if (idx < 0) { IfCfg c = h.other_ifcfg(); mac = c.mac; idx = w.add_if(c); }
+        Mac s = h.st_real((int)(op.arg(1) & 3));
+        uint16_t x = (uint16_t)op.arg(2, 1);
+        Bytes f;
+        switch ((int)op.arg(0)) {
+            case 0: f = mk_simple(BCAST, s, 0, OP_RESET, BCAST, s, 0); break;
+            case 1: f = mk_simple(BCAST, s, 1, OP_RESET, BCAST, s, 0); break;
+            case 2: f = mk_discover(s, s, 0, 1, x, {}); break;
+            case 3: f = mk_simple(mac, s, 0, OP_QUERY, mac, s, (uint16_t)(x | 1)); break;
+            case 4: f = mk_qlt(mac, s, mac, s, (uint16_t)(x | 1), 0x0E, 0, 0); break;
+            case 5: f = mk_simple(mac, mac_from_u64(0x0400CC000000ULL + x), 0, OP_PROBE, mac, mac_from_u64(0x0400DD000000ULL + (x % 3)), 0); break;
+            case 6: f = mk_qlt(mac, s, mac, s, (uint16_t)(x | 1), 0x11, 0, 0); break;
+            case 7: f = mk_discover(s, s, 1, 1, x, {mac}); break;
+            default: { std::vector<EmitDesc> d = {{1, 0, mac, mac_from_u64(0x0400F0000001ULL)}}; f = mk_emit(mac, s, mac, s, (uint16_t)(x | 1), d); break; }
+        }
+        (void)w.deliver(idx, f);
+        steps++;
+    }
 };
 
 // resolve -1 to the active mapper (or station 0 when none)
@@ -191,7 +242,7 @@ static inline void shadow_update(Shadow &sh, const Op &op, const Built &b) {
 // ------------------------------------------------------------------ generators
 struct HistWeights {
     int discover = 6, reset = 2, emit = 3, probe = 5, query = 3, qlt = 3, hello = 2, shell = 2, raw = 0,
-        tick = 0, advance = 1, seticon = 0, pburst = 0;
+        tick = 0, advance = 1, seticon = 0, pburst = 0, otherif = 0;
     int nstations = 3;
     bool commands_from_active_only = true;   // C05 domain restriction
     bool odd_tos = true;                     // Discover/Reset/QLT with ToS outside {0,1}
@@ -270,7 +321,8 @@ inline rc::Gen<Op> op_gen(const HistWeights &w) {
         // never a session command of the discovery services from a stranger: opcode drawn from the non-command set
         // for ToS 0/1; any opcode for other ToS
         int64_t tos = *rc::gen::weightedOneOf<int64_t>({{2, pick({0, 1})}, {3, pick({2, 3, 0x7F, 0xFF})}, {1, range<int64_t>(2, 255)}});
-        int64_t opc = (tos <= 1) ? *pick({1, 5, 7, 9, 10, 12, 13, 0x40, 0xFF}) : *rc::gen::weightedOneOf<int64_t>({{3, range<int64_t>(0, 12)}, {1, range<int64_t>(0, 255)}});
+        // (under quick discovery, ToS 1, Emit/Train/Probe/Query are not commands at all - the service does not have them - so they may come from anybody)
+        int64_t opc = tos == 1 ? *pick({1, 5, 7, 9, 10, 12, 13, 0x40, 0xFF, 2, 3, 4, 6, 6}) : (tos <= 1) ? *pick({1, 5, 7, 9, 10, 12, 13, 0x40, 0xFF}) : *rc::gen::weightedOneOf<int64_t>({{3, range<int64_t>(0, 12)}, {1, range<int64_t>(0, 255)}});
         o.a = {*st(), tos, opc, *pick({0, 1, 0xFFFF}), *pick({0, 1, 2})};
         return o; })});
     if (w.raw) alts.push_back({(size_t)w.raw, rc::gen::exec([=] { Op o; o.kind = K_RAW; o.blob = *bytes(0, 80); return o; })});
@@ -280,6 +332,8 @@ inline rc::Gen<Op> op_gen(const HistWeights &w) {
     if (w.pburst) alts.push_back({(size_t)w.pburst, rc::gen::exec([=] {
         // marker op: expanded by expand_bursts() into `count` K_PROBE ops with consecutive identities (enough to cross the per-frame capacity)
         Op o; o.kind = K_PBURST; o.a = {*range<int64_t>(100, 5000), *bnd({26, 27, 28, 29, 30, 72, 73, 74, 75}, 1, 120, 2, 1)}; return o; })});
+    if (w.otherif) alts.push_back({(size_t)w.otherif, rc::gen::exec([=] {
+        Op o; o.kind = K_OTHERIF; o.a = {*range<int64_t>(0, 8), *range<int64_t>(0, 2), *pick({1, 2, 3, 0x0101, 0x7FFF})}; return o; })});
     if (w.seticon) alts.push_back({(size_t)w.seticon, rc::gen::exec([=] { Op o; o.kind = K_SETICON; o.blob = *bytes(1, 700); return o; })});
     return gx::weighted<Op>(alts);
 }
@@ -294,6 +348,7 @@ inline rc::Gen<HCfg> cfg_gen() {
         h.wifi = (int)*pick({0, 0, 1});
         h.own = 0x020000000000ULL | (uint64_t)*range<int64_t>(1, 0xFFFFFF);
         h.stbase = 0x0200AA000000ULL;
+        if (*chance(8)) h.stbase |= ((uint64_t)*range<int64_t>(1, 3) << 48) | ((uint64_t)*range<int64_t>(0, 3) << 52);   // one station with an unusual real address
         h.untrunc = (int)*pick({0, 0, 0, 1});
         h.hostname = *bytes(0, 40);
         h.ssid = *bytes(0, 40);
